@@ -51,7 +51,7 @@ def traced(cfg):
     s, t, like, pt = runs.build(c)
     bad = []
     cnt = dict(rows=0, boundaries=0)
-    have_blobs = c["mode"] in ("blobs", "blobs2", "blobs3", "blobview")
+    have_blobs = c["mode"] in ("blobs", "blobs2", "blobs3", "blobview", "blobsI", "blobsS")
     if isinstance(c.get("pool"), int) and c["pool"] > 1:
         import functools
         globals_cr = coherent_rows
@@ -167,7 +167,7 @@ def traced_reuse(cfg, variant):
     from tempest.state_manager import StateManager
     from tvf.checks.c08 import tmpdir
     c = runs.full(cfg)
-    have_blobs = c["mode"] in ("blobs", "blobs2", "blobs3", "blobview")
+    have_blobs = c["mode"] in ("blobs", "blobs2", "blobs3", "blobview", "blobsI", "blobsS")
     tmp = tmpdir()
     bad = []
     cnt = dict(rows=0, boundaries=0, same_length=0, iters_after=0)
@@ -317,6 +317,11 @@ def run():
         row = dict(target=["gauss2", "bimodal", "support", "gauss4"][j % 4], kernel=["tpcn", "rwm"][j % 2], resample=["syst", "mult"][(j // 2) % 2], clustering=bool(j % 2),
                    mode="blobview", metric="ess", N=[32, 27][j % 2], cluster_every=1)
         tasks.append(("tvf.checks.c07:traced", dict(cfg=dict(to_cfg(row, ck.subseed("bview", j)), pool=[None, "tpe", 2, None][j % 4], progress=bool(j % 3 == 0), xalias=(j % 4 == 2 and j % 8 == 2))), None))
+    # blobs that are not floats: 64-bit integer labels above 2^53 and string labels (object dtype)
+    for j in range(ck.pick(4, 12)):
+        row = dict(target=["gauss2", "support", "bimodal", "expface"][j % 4], kernel=["tpcn", "rwm"][j % 2], resample=["syst", "mult"][(j // 2) % 2], clustering=bool(j % 2),
+                   mode=["blobsI", "blobsS"][j % 2], metric=["ess", "vol"][(j // 2) % 2], N=[32, 27][j % 2], cluster_every=1)
+        tasks.append(("tvf.checks.c07:traced", dict(cfg=dict(to_cfg(row, ck.subseed("btype", j)), progress=bool(j % 4 == 1), pool=[None, None, "tpe", None][j % 4])), None))
     # likelihood evaluated through a real concurrent.futures.ThreadPoolExecutor whose calls complete out of order
     for j in range(ck.pick(3, 8)):
         row = dict(target=["gauss2", "bimodal", "support", "vonmises"][j % 4], kernel=["tpcn", "rwm"][j % 2], resample=["syst", "mult"][(j // 2) % 2], clustering=bool(j % 2),
@@ -338,6 +343,8 @@ def run():
             ck.event("monitored runs whose prior transform is written for one point, parameter by parameter")
         if cfg.get("xalias"):
             ck.event("monitored runs whose prior transform returns its argument (identity on the unit cube)")
+        if cfg.get("mode") in ("blobsI", "blobsS"):
+            ck.event("monitored runs whose blobs are 64-bit integers above 2^53 or strings")
         if cfg.get("mode") == "blobview":
             ck.event("monitored runs whose blob is the likelihood's own argument (a reference)")
         if cfg.get("progress"):
